@@ -201,17 +201,24 @@ theorem sortedP_defaults (U : Universe) : SortedP U defaultInsts := by
 
 /-! ### releasing the postponed events -/
 
+def eventEntry (U : Universe) (name : Str) (i : Inst) : List Entry :=
+  match methOf U i.cls name with
+  | some m => [⟨i.label, m, .none⟩]
+  | none => []
+
 def entriesOf (U : Universe) (hs : List Inst) : Ev → List Entry
   | .single ev h a =>
     match methOf U h.cls ev with
     | some m => [⟨h.label, m, a⟩]
     | none => []
   | .worldLoad => hs.flatMap (worldLoadEntry U)
+  | .event name => hs.flatMap (eventEntry U name)
 
 /-- the relayed event has a callback (nothing else is ever queued by the loader) -/
 def GoodEv (U : Universe) : Ev → Prop
   | .single ev h _ => (methOf U h.cls ev).isSome = true
   | .worldLoad => True
+  | .event _ => True
 
 theorem foldl_worldLoad (U : Universe) (hs : List Inst) (w : World) :
     (hs.filter (fun h => ((eventsOf U h.cls).bind (fun m => Dict.get? m onWorldLoad)).isSome)).foldl
@@ -234,6 +241,27 @@ theorem foldl_worldLoad (U : Universe) (hs : List Inst) (w : World) :
       rw [ih, callMapped_some hm]
       simp [worldLoadEntry, hm, List.append_assoc]
 
+theorem foldl_event (U : Universe) (name : Str) (hs : List Inst) (w : World) :
+    (hs.filter (fun h => ((eventsOf U h.cls).bind (fun m => Dict.get? m name)).isSome)).foldl
+      (fun w h => callMapped U w name h .none) w =
+    { w with log := w.log ++ hs.flatMap (eventEntry U name) } := by
+  induction hs generalizing w with
+  | nil => simp
+  | cons h hs ih =>
+    cases hm : methOf U h.cls name with
+    | none =>
+      have : ((eventsOf U h.cls).bind (fun m => Dict.get? m name)).isSome = false := by
+        unfold methOf at hm; simp [hm]
+      simp only [List.filter_cons, this, Bool.false_eq_true, ite_false, List.flatMap_cons]
+      rw [ih]
+      simp [eventEntry, hm]
+    | some m =>
+      have : ((eventsOf U h.cls).bind (fun m => Dict.get? m name)).isSome = true := by
+        unfold methOf at hm; simp [hm]
+      simp only [List.filter_cons, this, ite_true, List.foldl_cons, List.flatMap_cons]
+      rw [ih, callMapped_some hm]
+      simp [eventEntry, hm, List.append_assoc]
+
 theorem deliver_good (U : Universe) (w : World) (ev : Ev) (hg : GoodEv U ev) :
     deliver U w ev = { w with log := w.log ++ entriesOf U w.handlers ev } := by
   cases ev with
@@ -244,6 +272,9 @@ theorem deliver_good (U : Universe) (w : World) (ev : Ev) (hg : GoodEv U ev) :
   | worldLoad =>
     simp only [deliver, entriesOf]
     exact foldl_worldLoad U w.handlers w
+  | event name =>
+    simp only [deliver, entriesOf]
+    exact foldl_event U name w.handlers w
 
 theorem release_good (U : Universe) (evs : List Ev) (w : World) (hg : ∀ ev ∈ evs, GoodEv U ev)
     (hf : w.failed = none) :
